@@ -373,6 +373,15 @@ def r1(ctx, m: RespModel):
             want = {norm(e), norm(o)}
             ok = any(pol and isinstance(t, ast.Call) and isinstance(t.func, ast.Name) and t.func.id == "isinstance"
                      and len(t.args) == 2 and norm(t.args[0]) in want for t, pol in facts(c, fe.node))
+            callee = ctx.repo.resolve_class(ap(c.func) or "", fe.module)
+            init = ctx.repo.lookup_method(callee, "__init__") if callee is not None else None
+            if init is not None:
+                bindable = [p.arg for p in init.node.args.args[1:]]
+                ctx.ob("C17.R1", f"Message.from_eq_event: {callee.name}(**{norm(e)}) cannot bind {callee.name}'s own "
+                                 f"positional parameters from wire keys", not bindable, ctx.w(init, init.node),
+                       f"{callee.name}.__init__ takes {bindable} as positional-or-keyword while the call site already "
+                       f"passes them positionally: an event body with such a key raises TypeError (multiple values) in "
+                       f"the middle of the filter; make them positional-only")
             ctx.ob("C17.R1", f"Message.from_eq_event: **{norm(e)} only for a body known to be a mapping", ok, ctx.w(fe, c),
                    f"the event body comes off the wire and may be any LLSD value; `**` of a non-mapping raises TypeError "
                    f"in the middle of the filter, the response then reaches the viewer unprocessed (swallowed events "
@@ -401,6 +410,29 @@ def _merge_stmts(m: RespModel):
 
 
 # --------------------------------------------------------------------------- R2
+
+def r1_llsd_binding(ctx):
+    """The EQ request/response handlers parse and format LLSD with hippolyzer's own llsd module (the same-named
+    upstream package cannot format hippolyzer's UUID / vector types that injected events carry)."""
+    repo = ctx.repo
+    want = "hippolyzer.lib.base.llsd"
+    n = 0
+    for q in ("MITMProxyEventManager._handle_request", "MITMProxyEventManager._handle_response"):
+        fi = repo.fn(q)
+        heads = {}
+        for c in calls(fi.node):
+            if call_attr(c) in ("format_xml", "parse_xml") and isinstance(c.func, ast.Attribute):
+                head = (ap(c.func.value) or "").split(".")[0]
+                if head and head != "self":
+                    heads.setdefault(head, c)
+        for head, c in sorted(heads.items()):
+            n += 1
+            target = fi.module.imports.get(head)
+            ctx.ob("C17.R1", f"{q}: `{head}` used for parse_xml/format_xml is {want}", target == want, ctx.w(fi, c),
+                   f"`{head}` is bound to {target!r} in {fi.module.rel}: responses carrying injected events with hippolyzer "
+                   f"value types cannot be formatted by another llsd implementation, the rewrite is aborted")
+    ctx.floor("C17.R1", "llsd receivers in the EQ handlers", n, 2)
+
 
 def r2(ctx, m: RespModel):
     repo = ctx.repo
@@ -709,7 +741,18 @@ def r4(ctx):
             for cmp_ in [x for x in walk(lp) if isinstance(x, ast.Compare) and len(x.ops) == 1 and isinstance(x.ops[0], ast.Eq)]:
                 if {ap(cmp_.left), ap(cmp_.comparators[0])} == {f"{v}.circuit_addr", a_name}:
                     found.append((cf, lp, cmp_, via))
-    ctx.ob("C17.R4", "register_region searches session.regions by circuit address", len(found) >= 1, f.fi.where,
+    gfound = []
+    for cf, a_name, via in cands:
+        for g in [n for n in walk(cf.tree) if isinstance(n, (ast.GeneratorExp, ast.ListComp))]:
+            if len(g.generators) != 1 or not (ap(strip_copy(g.generators[0].iter)[0]) or "").endswith(".regions"):
+                continue
+            gen = g.generators[0]
+            v = ap(gen.target)
+            for cmp_ in [x for i in gen.ifs for x in walk(i) if isinstance(x, ast.Compare) and len(x.ops) == 1
+                         and isinstance(x.ops[0], ast.Eq)]:
+                if {ap(cmp_.left), ap(cmp_.comparators[0])} == {f"{v}.circuit_addr", a_name}:
+                    gfound.append((cf, g, gen, cmp_, via))
+    ctx.ob("C17.R4", "register_region searches session.regions by circuit address", len(found) + len(gfound) >= 1, f.fi.where,
            "no loop over <session>.regions comparing <region>.circuit_addr with the announced address in "
            "register_region or a helper it passes the address to")
     for cf, lp, cmp_, via in found:
@@ -753,6 +796,47 @@ def r4(ctx):
                    "a region is appended before / while the existing regions are searched: a second announcement "
                    "creates a duplicate", f.describe(dom or back))
             ctx.ob("C17.R4", "register_region never appends once a region with the address was found", bool(ok), cf.w(cmp_), why)
+    for cf, g, gen, cmp_, via in gfound:
+        # next((r for r in regions if <addr match> or ...), None): the first matching region is the result
+        call = parent(g)
+        is_next = isinstance(call, ast.Call) and ap(call.func) == "next" and call.args and call.args[0] is g \
+            and len(call.args) == 2 and isinstance(call.args[1], ast.Constant) and call.args[1].value is None \
+            and ap(g.elt) == ap(gen.target)
+        disj = [e for i in gen.ifs for e, _ in atoms(i, False)]
+        plain = len(gen.ifs) == 1 and any(e is cmp_ for e in disj)
+        ctx.ob("C17.R4", "register_region: every region with the announced circuit address ends the search",
+               bool(is_next and plain), cf.w(cmp_),
+               f"the search {norm(g)[:120]} does not yield every region whose address matches (extra conjunct on the "
+               f"match, or not a first-match `next(..., None)`): a skipped match gets a duplicate appended")
+        # bind the result
+        var, bind_node_fn, bind_nodes = None, f, []
+        if is_next:
+            st = enclosing_stmt(call)
+            if via is None:
+                if isinstance(st, ast.Assign) and len(st.targets) == 1 and isinstance(st.targets[0], ast.Name) and st.value is call:
+                    var, bind_nodes = st.targets[0].id, f.nodes(st)
+            else:
+                rets = [r for r in walk(cf.tree) if isinstance(r, ast.Return)]
+                if len(rets) == 1 and rets[0].value is not None and origin(cf.tree, rets[0].value) is call:
+                    vst = enclosing_stmt(via)
+                    if isinstance(vst, ast.Assign) and len(vst.targets) == 1 and isinstance(vst.targets[0], ast.Name):
+                        var, bind_nodes = vst.targets[0].id, f.nodes(vst)
+        for c in apps:
+            an = set(f.nodes(c))
+            bn = set(bind_nodes)
+            dom = normal_path(f.cfg, [f.cfg.entry], lambda n: n in an, lambda n: n in bn) if bn else ["unbound"]
+            back = normal_path(f.cfg, list(an), lambda n: n in bn) if bn else None
+            ctx.ob("C17.R4", "register_region appends only after the search loop", bool(bn) and dom is None and back is None,
+                   f.w(c), "a region is appended before / while the existing regions are searched",
+                   f.describe(dom) if bn and dom else None)
+            guarded = False
+            if var is not None:
+                for e, pol in facts(c, f.tree):
+                    t = is_none_test(e)
+                    if (t and t[0] == var and t[1] == pol) or (isinstance(e, ast.Name) and e.id == var and not pol):
+                        guarded = True
+            ctx.ob("C17.R4", "register_region never appends once a region with the address was found", guarded, cf.w(cmp_),
+                   f"regions.append is not guarded by `{var} is None`: a found region does not prevent the append")
     # who adds to session.regions
     adders = {}
     for g, st in fast_writers_of(repo, "regions"):
@@ -873,6 +957,7 @@ def _found_prevents_append(hf: "Fn", lp, firsts, matched, f: "Fn", via, app_call
 def run(ctx):
     m = RespModel(ctx)
     r1(ctx, m)
+    r1_llsd_binding(ctx)
     r2(ctx, m)
     r3(ctx, m)
     r4(ctx)
